@@ -101,7 +101,14 @@ def finish(rep, tier, t0, seed=0, extra_cov=None, level="other", pdb_info=None, 
     samples = [r.as_dict() for r in rep.results if r.status != "info"]
     # keep the evidence readable: all violations + a spread of ok instances
     okays = [s for s in samples if s["verdict"] == "ok"]
-    shown = [s for s in samples if s["verdict"] != "ok"] + okays[:60]
+    per_rule = {}
+    spread = []
+    for s_ in okays:          # a spread of ok instances: up to 6 per rule name
+        name = s_["key"].split("/")[1] if "/" in s_["key"] else s_["key"]
+        per_rule[name] = per_rule.get(name, 0) + 1
+        if per_rule[name] <= 6:
+            spread.append(s_)
+    shown = [s for s in samples if s["verdict"] != "ok"] + spread[:120]
     proof_obl = [r for r in evaluated if r.proof]
     cov = {
         "explanation": "static rule evaluation over the typed HIR of /repo's current working tree "
